@@ -445,12 +445,20 @@ static void misc_unit(void) {
     vf_cnt(K_BUILD, 1);
     all_schedules(&s, NULL);
   }
-  for (int w = 0; w < G_NGROW; w++)
+  /* container sizes 0..17 (every growth step up to 16), and the later growth steps 32 .. 4096 with their neighbours: a refused growth is refused at every size */
+  static const int BIG[] = {31, 32, 33, 64, 127, 128, 129, 256, 512, 1024, 1025, 4096};
+  for (int w = 0; w < G_NGROW; w++) {
     for (int step = 0; step <= 17; step++) {
       struct scen s = {.kind = SC_GROW, .which = w, .step = step};
       vf_cnt(K_GROW, 1);
       all_schedules(&s, NULL);
     }
+    for (unsigned b = 0; b < sizeof BIG / sizeof BIG[0]; b++) {
+      struct scen s = {.kind = SC_GROW, .which = w, .step = BIG[b]};
+      vf_cnt(K_GROW, 1);
+      all_schedules(&s, NULL);
+    }
+  }
 }
 /* boundary corpus items small enough for a complete schedule enumeration: growth steps inside load and copy */
 static void corpus_unit(uint64_t i) {
